@@ -106,6 +106,7 @@ def run(ctx):
                 ntr += 1
         cfgf = os.path.join(ctx.scratch, "Trace_ZnPrefork_%d_%d.cfg" % (i0, m0))
         open(cfgf, "w").write(CFG_TMPL % (i0, m0))
+        common.corrupt_trace(tf, ["rc", "n"])
         ttxt, tinfo = common.tlc(ctx, "Trace_ZnPrefork", os.path.basename(cfgf), workers=1, timeout=900, files=[(tf, "trace.ndjson"), (cfgf, os.path.basename(cfgf))], allow_violation=True)
         if tinfo["violated"]:
             m = re.search(r"The depth of the complete state graph search is (\d+)", ttxt)
